@@ -434,25 +434,47 @@ func (e *Enc) loopHead(b *ssa.BasicBlock, li *loopInfo) {
 			e.oblige("inv-entry", fmt.Sprintf("loop%d.auto%d", li.ordinal, k), "", b.Instrs[0].Pos(), implies(e.namedEdge(p, b), t))
 		}
 	}
-	// 2. havoc what the loop modifies; keys the loop writes only in memory allocated by this function keep the cells
-	// that existed at function entry
+	// 2. havoc what the loop modifies. Cells that existed at loop entry and are not rooted at an allocation the body
+	// may write (syntactic frame analysis) keep their values.
 	{
-		existing := e.w.blockWritesExisting(li.blocks, e.fn)
-		a0 := e.allocCounter(e.entryHeap)
+		plain, except := e.w.loopFrame(li.blocks, e.fn)
+		aEntry := e.allocCounter(pre)
 		var keys []string
 		for k := range li.mod {
 			keys = append(keys, k)
 		}
 		sort.Strings(keys)
+		if li.mod["*"] {
+			e.havocAll(e.cur)
+			keys = nil
+		}
 		for _, k := range keys {
-			if k == "*" {
-				e.havocAll(e.cur)
-				break
-			}
-			if li.mod["*"] {
+			if plain[k] || plain["*"] || strings.HasPrefix(k, "$") || k == "map" {
+				e.havocKey(e.cur, k)
 				continue
 			}
-			if existing[k] || existing["*"] || strings.HasPrefix(k, "$") || k == "map" {
+			var ex []string
+			bad := false
+			for _, v := range except[k] {
+				val, known := e.vals[v]
+				if !known {
+					if _, isP := v.(*ssa.Parameter); isP {
+						val = e.val(v)
+					} else {
+						bad = true
+						break
+					}
+				}
+				switch val.S {
+				case "Slice":
+					ex = append(ex, e.rootOf(app("sarr", val.T)))
+				case "Ref":
+					ex = append(ex, e.rootOf(val.T))
+				default:
+					bad = true
+				}
+			}
+			if bad {
 				e.havocKey(e.cur, k)
 				continue
 			}
@@ -461,13 +483,26 @@ func (e *Enc) loopHead(b *ssa.BasicBlock, li *loopInfo) {
 					e.heapGet(e.cur, k, srt)
 				}
 			}
-			e.havocKeyFramed(e.cur, k, a0, nil)
+			sort.Strings(ex)
+			e.havocKeyFramed(e.cur, k, aEntry, dedup(ex))
 		}
 	}
 	for _, ins := range b.Instrs {
 		if phi, ok := ins.(*ssa.Phi); ok {
 			v := e.havocVal(phi)
 			e.assert(e.refOld(v, e.cur))
+			// a value that only ever derives from allocations made in this function (syntactic analysis) points to
+			// memory allocated after function entry
+			if v.S == "Slice" || v.S == "Ref" {
+				if ri := classifyRoot(phi, e.fn, map[ssa.Value]bool{}); ri.kind == rootFresh {
+					a0 := e.allocCounter(e.entryHeap)
+					if v.S == "Slice" {
+						e.assert(or(app("=", app("sarr", v.T), "nil"), app(">", e.rootOf(app("sarr", v.T)), a0)))
+					} else {
+						e.assert(or(app("=", v.T, "nil"), app(">", e.rootOf(v.T), a0)))
+					}
+				}
+			}
 		}
 	}
 	// allocation counter only grows
@@ -557,8 +592,44 @@ func (e *Enc) loopInvariantValue(v ssa.Value, li *loopInfo, depth int) bool {
 		if b, ok := x.Call.Value.(*ssa.Builtin); ok && (b.Name() == "len" || b.Name() == "cap") {
 			return e.loopInvariantValue(x.Call.Args[0], li, depth+1)
 		}
+	case *ssa.UnOp:
+		// a load from a loop-invariant address: accepted, autoMeasure adds "the cell still holds this value at the
+		// back edge" to the obligation (see boundLoads)
+		if x.Op == token.MUL && e.loopInvariantValue(x.X, li, depth+1) {
+			if _, isStruct := under(x.Type()).(*types.Struct); !isStruct {
+				return true
+			}
+		}
 	}
 	return false
+}
+
+// boundLoads: the loads (inside the loop) a bound expression depends on.
+func (e *Enc) boundLoads(v ssa.Value, li *loopInfo, out *[]*ssa.UnOp, depth int) {
+	if depth > 6 {
+		return
+	}
+	ins, ok := v.(ssa.Instruction)
+	if !ok || !li.blocks[ins.Block()] {
+		return
+	}
+	switch x := v.(type) {
+	case *ssa.BinOp:
+		e.boundLoads(x.X, li, out, depth+1)
+		e.boundLoads(x.Y, li, out, depth+1)
+	case *ssa.Convert:
+		e.boundLoads(x.X, li, out, depth+1)
+	case *ssa.ChangeType:
+		e.boundLoads(x.X, li, out, depth+1)
+	case *ssa.Call:
+		if len(x.Call.Args) > 0 {
+			e.boundLoads(x.Call.Args[0], li, out, depth+1)
+		}
+	case *ssa.UnOp:
+		if x.Op == token.MUL {
+			*out = append(*out, x)
+		}
+	}
 }
 
 // stepOf: if v is `phi + c` / `phi - c` for a head phi of this loop, return the phi and signed step.
@@ -617,12 +688,19 @@ func (e *Enc) autoMeasure(li *loopInfo, p *ssa.BasicBlock) (string, bool) {
 		next := e.val(phi.Edges[idx]).T
 		bd := e.val(bound).T
 		o := ilit(off)
+		stable := "true"
+		var lds []*ssa.UnOp
+		e.boundLoads(bound, li, &lds, 0)
+		for _, ld := range lds {
+			now := e.load(e.outHeap[p], e.val(ld.X).T, ld.X, ld.Type())
+			stable = and(stable, app("=", now, e.val(ld).T))
+		}
 		switch op {
 		case token.LSS, token.LEQ:
 			// the body ran because cur+off < (<=) bound; measure bound - cur
-			return and(app(">", next, cur), app(">=", app("-", bd, app("+", cur, o)), "0")), true
+			return and(stable, app(">", next, cur), app(">=", app("-", bd, app("+", cur, o)), "0")), true
 		case token.GTR, token.GEQ:
-			return and(app("<", next, cur), app(">=", app("-", app("+", cur, o), bd), "0")), true
+			return and(stable, app("<", next, cur), app(">=", app("-", app("+", cur, o), bd), "0")), true
 		}
 		return "", false
 	}
@@ -826,6 +904,11 @@ func (e *Enc) instr(ins ssa.Instruction) {
 		switch xv.S {
 		case "Ref":
 			e.assert(app("=", app("unboxRef", v.T), xv.T))
+			if ts := x.X.Type().String(); ts == "*bytes.Reader" || ts == "*bytes.Buffer" {
+				// the interface value inherits the reader's ghost accounting
+				h.m["$consumed"] = app("store", e.heapGet(h, "$consumed", "Int"), v.T, app("select", e.heapGet(h, "$consumed", "Int"), xv.T))
+				h.m["$limit"] = app("store", e.heapGet(h, "$limit", "Int"), v.T, app("select", e.heapGet(h, "$limit", "Int"), xv.T))
+			}
 		case "Int":
 			e.assert(app("=", app("unboxInt", v.T), xv.T))
 		}
@@ -847,7 +930,11 @@ func (e *Enc) instr(ins ssa.Instruction) {
 			}
 			e.zeroFill(h, app("sarr", v.T), et)
 		}
-		e.allocNote(x, app("*", cp, ilit(elemSize)))
+		if e.ct != nil && e.ct.Opts["alloc-chunk"] != "" {
+			// allocation discipline of the stream decoders (C09): no single make is sized beyond a fixed chunk, so a
+			// length/count field read from the input can never dictate an allocation
+			e.oblige("alloc", descOf(e.exprText(x, x)), "", x.Pos(), e.guardGoal(app("<=", app("*", cp, ilit(elemSize)), e.ct.Opts["alloc-chunk"])))
+		}
 	case *ssa.MakeMap, *ssa.MakeChan:
 		o := e.newObj(h)
 		e.define(x.(ssa.Value), o)
@@ -1317,7 +1404,7 @@ func (e *Enc) convert(x *ssa.Convert) {
 		o := e.newObj(e.cur)
 		ln := app("strlen", v.T)
 		c := e.fresh("cap", "Int")
-		e.assert(and(app(">=", c, ln), app("<=", c, "281474976710656")))
+		e.assert(and(app(">=", c, ln), app("<=", c, "1099511627776")))
 		e.define(x, app("mkslice", o, "0", ln, c))
 	case fs == "Int" && ts == "Str":
 		n := e.fresh("r2str", "Str")
@@ -1471,4 +1558,14 @@ func predIndex(b, p *ssa.BasicBlock) int {
 		}
 	}
 	return 0
+}
+
+func dedup(xs []string) []string {
+	var out []string
+	for i, x := range xs {
+		if i == 0 || x != xs[i-1] {
+			out = append(out, x)
+		}
+	}
+	return out
 }
